@@ -139,6 +139,19 @@ func verifyFunction(w *World, ss *SpecSet, fn *ssa.Function, spec *FuncSpec) (re
 		e.ctx.assume(v.T)
 		e.trust("UNCHECKED assumption of " + e.key + " (" + c.Line + "): " + c.Src)
 	}
+	// axioms (`lemma name: expr`): definitional facts about uninterpreted
+	// specification functions, assumed where a function says `uses name`
+	for _, u := range spec.Uses {
+		for _, l := range ss.Lemmas {
+			if l.Name != u {
+				continue
+			}
+			env := &SpecEnv{ex: e, st: st, old: st, vars: map[string]Val{}, spec: &FuncSpec{Pkg: l.Pkg}, nextRef0: e.nextRef0}
+			v := env.eval(l.E)
+			e.ctx.assumeGlobal(v.T)
+			e.trust("AXIOM " + l.Name + " (" + l.Line + "): " + l.Src + " (assumed; defines a specification function)")
+		}
+	}
 	// lemmas proved in `prove` blocks of the same package, imported by name
 	for _, u := range spec.Uses {
 		lb, ok := ss.Funcs[spec.Pkg+".prove "+u]
